@@ -36,6 +36,9 @@ def scenarios(t):
         sc.append({"id": "update-" + e, "kind": "write", "what": "update", "edit": e})
     for api in ("blocklist", "byte", "sample", "sample-iter", "channel", "seektable", "verify"):
         sc.append({"id": "read-" + api, "kind": "read", "what": "read", "api": api})
+    # the frame-at-a-time stream reader over buffered sources of several capacities (refills between the bytes of a sync code)
+    for cap in (1, 2, 3, 5, 16, 64):
+        sc.append({"id": "read-stream-cap%d" % cap, "kind": "read", "what": "read", "api": "stream", "cap": cap})
     for e in ("grow", "rebuild"):
         sc.append({"id": "update-readfault-" + e, "kind": "read", "what": "update", "edit": e})
     return sc
